@@ -5,7 +5,7 @@
 //! the TreeHasher encoder) interleaved with allocations. The event logs the node table
 //! (atoms + pair index pairs, 1-based, children before parents) and every returned hash; the
 //! trace spec recomputes the reference bottom-up over the table.
-use crate::sx::Sx;
+use crate::sx::{sha256, Sx};
 use crate::util::*;
 use chia_protocol::SpendBundle;
 use chia_traits::Streamable;
@@ -183,6 +183,19 @@ fn slots_of(live: &Live, cache: &TreeCache, tab: &[TNode], upto: usize, limit: u
     Value::Array(out)
 }
 
+/// independent reference hashes of the first `upto` table nodes (sha2 crate, bottom-up)
+fn table_ref_hashes(tab: &[TNode], upto: usize) -> Vec<[u8; 32]> {
+    let mut hs: Vec<[u8; 32]> = Vec::with_capacity(upto);
+    for nd in &tab[..upto] {
+        let h = match nd {
+            TNode::A(b, _) => sha256(&[&[1u8][..], b.as_slice()]),
+            TNode::P(l, r) => sha256(&[&[2u8][..], &hs[*l][..], &hs[*r][..]]),
+        };
+        hs.push(h.as_slice().try_into().expect("32 bytes"));
+    }
+    hs
+}
+
 /// run one history on a fresh Allocator and ONE TreeCache
 fn run_history(tab: &[TNode], evs: &[Ev], gen_name: &str, r: &mut StdRng) -> Value {
     let (size, depth) = measures(tab);
@@ -207,6 +220,18 @@ fn run_history(tab: &[TNode], evs: &[Ev], gen_name: &str, r: &mut StdRng) -> Val
                         Err(p) => json!({"op": "visit", "n": n + 1, "h": [], "panic": p}),
                     },
                     "cached" => hash_json(catch(AssertUnwindSafe(|| Ok(tree_hash_cached(a, node, &mut cache)))), op, *n),
+                    "insert" => {
+                        // pre-seed the shared cache through the public API with the node's true hash
+                        // (independent bottom-up reference; only where nothing is memoised yet, as in the spec)
+                        if !matches!(tab[*n], TNode::P(..)) || cache.get(node).is_some() {
+                            continue;
+                        }
+                        let h = TreeHash::new(table_ref_hashes(tab, n + 1)[*n]);
+                        match catch(AssertUnwindSafe(|| cache.insert(node, &h))) {
+                            Ok(()) => json!({"op": "insert", "n": n + 1, "h": []}),
+                            Err(p) => json!({"op": "insert", "n": n + 1, "h": [], "panic": p}),
+                        }
+                    }
                     "plain" => {
                         // tree_hash walks the unfolded tree: exponential on heavily shared DAGs
                         if size[*n] > MAX_UNFOLD {
@@ -230,7 +255,7 @@ fn run_history(tab: &[TNode], evs: &[Ev], gen_name: &str, r: &mut StdRng) -> Val
                     }
                     _ => panic!("unknown op {op}"),
                 };
-                if small && (*op == "visit" || *op == "cached") {
+                if small && (*op == "visit" || *op == "cached" || *op == "insert") {
                     // memoised slots (TreeCache::get) that are new or changed since the previous call
                     let now = slots_of(&live, &cache, tab, live.ptr.len(), 1000, r);
                     let delta: Vec<Value> = now.as_array().unwrap().iter().filter(|x| !seen_slots.contains(*x)).cloned().collect();
@@ -272,6 +297,7 @@ fn replay_hist(c: &Value, r: &mut StdRng) -> Value {
             let op: &'static str = match k {
                 "visit" => "visit",
                 "cached" => "cached",
+                "insert" => "insert",
                 "plain" => "plain",
                 "bytes" => "bytes",
                 "bytes_br" => "bytes_br",
@@ -312,6 +338,7 @@ fn replay_table(c: &Value, r: &mut StdRng) -> Value {
             "alloc" => evs.push(Ev::Alloc(n.min(tab.len()))),
             "visit" => evs.push(Ev::Call("visit", n - 1)),
             "cached" => evs.push(Ev::Call("cached", n - 1)),
+            "insert" => evs.push(Ev::Call("insert", n - 1)),
             "plain" => evs.push(Ev::Call("plain", n - 1)),
             "bytes" => evs.push(Ev::Call("bytes", n - 1)),
             "bytes_br" => evs.push(Ev::Call("bytes_br", n - 1)),
@@ -483,8 +510,22 @@ fn gen_schedule(tab: &[TNode], r: &mut StdRng) -> Vec<Ev> {
     if pairs.is_empty() {
         return vec![Ev::Call("cached", 0), Ev::Call("plain", 0)];
     }
-    let style = r.random_range(0..3);
-    if style == 0 {
+    let style = r.random_range(0..4);
+    if style == 3 {
+        // a cache pre-seeded through TreeCache::insert (late pairs first, leaving gaps in the index table),
+        // then trees containing earlier, never visited pairs
+        evs.push(Ev::Alloc(n));
+        for _ in 0..r.random_range(1..4usize) {
+            evs.push(Ev::Call("insert", pairs[pairs.len() - 1 - r.random_range(0..pairs.len().min(4))]));
+        }
+        for _ in 0..ntrees.min(8) {
+            let x = pairs[r.random_range(0..pairs.len())];
+            evs.push(Ev::Call(if r.random_range(0..4) == 0 { "insert" } else { "cached" }, x));
+        }
+        evs.push(Ev::Call("cached", pairs[0]));
+        evs.push(Ev::Call("cached", *pairs.last().unwrap()));
+        evs.push(Ev::Call("plain", *pairs.last().unwrap()));
+    } else if style == 0 {
         // run_block_generator2: visit every puzzle first, then hash each, the interpreter allocating in between
         let first_alloc = n - n / 4;
         evs.push(Ev::Alloc(first_alloc));
@@ -529,6 +570,7 @@ fn gen_schedule(tab: &[TNode], r: &mut StdRng) -> Vec<Ev> {
                 16 => "bytes",
                 17 => "bytes_br",
                 18 => "enc",
+                19 => "insert",
                 _ => "cached",
             };
             evs.push(Ev::Call(op, x));
